@@ -122,7 +122,7 @@ def p_grammar(prog, case, budget):
             lb = model_bytes(md, bs)
             findings.append(dict(kind='mismatch', site='from_shared_str vs IRC grammar', what=bad, predicate=('colon-in-middle' if b':' in lb.strip()[1:] else 'tokenizing') + ('+prefix' if lb.strip()[:1] == b':' else '') + ('/refused' if res.variant == 1 else ('/accepted' if ref[0] != 'ok' else '/parsed')),
                                  witness=dict(line=lb.hex(), profile=prog.profile)))
-    explore(prog, run, on, stats=st, timeout_ms=budget['solver_ms'], max_steps=budget['steps'], max_paths=budget['paths'],
+    explore(prog, run, on, stats=st, prefix=case.get('prefix'), timeout_ms=budget['solver_ms'], max_steps=budget['steps'], max_paths=budget['paths'],
             deadline=(time.time() + budget['case_s']) if budget.get('case_s') else None)
     return dict(stats=st, findings=findings, samples=samples, nontrivial=nontriv[0], case=case['name'])
 
@@ -170,7 +170,7 @@ def p_roundtrip(prog, case, budget):
             if md is None: return
             findings.append(dict(kind='mismatch', site='relay round trip', what=f'{verb}: the relayed line {bytes(model_bytes(md, out.data))!r} does not re-parse to the text sent', predicate='roundtrip',
                                  witness=dict(text=model_bytes(md, bs).hex(), verb=verb, nparams=nparams, profile=prog.profile)))
-    explore(prog, run, on, stats=st, timeout_ms=budget['solver_ms'], max_steps=budget['steps'], max_paths=budget['paths'],
+    explore(prog, run, on, stats=st, prefix=case.get('prefix'), timeout_ms=budget['solver_ms'], max_steps=budget['steps'], max_paths=budget['paths'],
             deadline=(time.time() + budget['case_s']) if budget.get('case_s') else None)
     return dict(stats=st, findings=findings, samples=samples, nontrivial=nontriv[0], case=case['name'])
 
@@ -197,7 +197,7 @@ def p_encode(prog, case, budget):
             st.discharged += 1
         else:
             findings.append(dict(kind='mismatch', site='IRCLinesCodec::encode', what='an emitted line is not the message followed by exactly CR LF', predicate='framing', witness=dict(n=n, profile=prog.profile)))
-    explore(prog, run, on, stats=st, timeout_ms=budget['solver_ms'], max_steps=budget['steps'], max_paths=budget['paths'])
+    explore(prog, run, on, stats=st, prefix=case.get('prefix'), timeout_ms=budget['solver_ms'], max_steps=budget['steps'], max_paths=budget['paths'])
     return dict(stats=st, findings=findings, samples=[], nontrivial=nontriv[0], case=case['name'])
 
 # ------------------------------------------------------------------------------------------ classification through the connection loop
